@@ -244,6 +244,8 @@ def get_attr(I, obj, name, node):
     if isinstance(obj, Regex):
         if name in REGEX_METHODS:
             return Builtin('regex.' + name, recv=obj)
+    if type(obj).__name__ == 'ASet':
+        return Builtin('set.aset', recv=obj)
     if isinstance(obj, frozenset) and name in ('add', 'discard', 'remove', 'update', 'clear', 'pop', 'difference_update',
                                                'intersection_update', 'symmetric_difference_update'):
         return Builtin('set.mutate', recv=obj)
@@ -611,6 +613,8 @@ def iterate(I, it, node):
         return list(it)
     if isinstance(it, frozenset):
         return sorted(it, key=repr)
+    if type(it).__name__ == 'ASet':
+        return sorted(it.items, key=repr)
     if isinstance(it, (str, bytes)):
         return list(it)
     if isinstance(it, dict):
@@ -922,6 +926,9 @@ def compare(I, op, l, r, node):
     if opn in ('In', 'NotIn'):
         res = None
         cont = r
+        if type(r).__name__ == 'ASet':
+            r = frozenset(r.items)
+            cr, rc = r, True
         I.emit('membership', node, {'left': l, 'right': r, 'op': opn})
         if rc and isinstance(cr, (frozenset, tuple, str, bytes, dict)):
             if lc:
